@@ -7,8 +7,10 @@ walk maintains
 
 * (V) type soundness of the store and (S) "supplied vertices hold a value" (`Complete.SInv`);
 * (P) progress (`PrevP`): an out vertex just processed holds a value; a value vertex just processed has
-  set `final`, and holds a value unless it was entered by an R6 hop `value n t s → value n t ""`; an
-  argument vertex just processed holds a value unless it follows such a hop.
+  set `final`, and holds a value unless it was entered by an R6 hop `value n t s → value n t ""` that copies
+  nothing (`c.hopCopies = false`, before the repair of finding F22); an argument vertex just processed holds a
+  value unless it follows such a hop.  With `c.hopCopies = true` every value / argument vertex just processed
+  holds a value.
 
 Hence `reflect.Value.Set` never sees a non-assignable value (every oracle), and "didn't reach a final
 value" can only happen for a path that ends `…, value, value, arg` — which a shortest path never does
@@ -202,12 +204,15 @@ def PrevP (c : Ctx) (s : CallSt) (final : Option PVal) (done : List Vtx) : Optio
   | some (.value n t u) =>
     s.last = s.get (.value n t u) ∧ final.isSome = true ∧
     (∀ a, final = some a → c.env.assignable a.ty t = true) ∧
-    ((s.get (.value n t u)).isSome = true ∨ ∃ pre a, done = pre ++ [a, .value n t u] ∧ a.isValue = true)
+    ((s.get (.value n t u)).isSome = true ∨
+      (c.hopCopies = false ∧
+        ∃ pre a, done = pre ++ [a, .value n t u] ∧ a.isValue = true ∧ c.g.hasEdge (.value n t u) a = true))
   | some (.out t u) => (s.get (.out t u)).isSome = true ∧ s.last = s.get (.out t u)
   | some (.arg t u) =>
     final = s.get (.arg t u) ∧
     ((s.get (.arg t u)).isSome = true ∨
-      ∃ pre a b, done = pre ++ [a, b, .arg t u] ∧ a.isValue = true ∧ b.isValue = true)
+      (c.hopCopies = false ∧
+        ∃ pre a b, done = pre ++ [a, b, .arg t u] ∧ a.isValue = true ∧ b.isValue = true ∧ c.g.hasEdge b a = true))
   | some (.func k) => ∀ v ∈ c.g.ins (.func k), (s.get v).isSome = true
 
 def WInv (c : Ctx) (K : Prop) (Sup : Vtx → Prop) (done : List Vtx) (w : WalkSt) : Prop :=
@@ -258,18 +263,32 @@ theorem walkStep_winv (gf : Facts c K Sup) (rec : Vtx → CallSt → Except RErr
     | value n t x =>
       rw [walkStep_value c rec herr, hu]
       -- the copy
-      have key : PInv c Sup (copyFrom w.s (some u) (.value n t x)) ∧
-          (((copyFrom w.s (some u) (.value n t x)).get (.value n t x)).isSome = true ∨
-            (copyFrom w.s (some u) (.value n t x) = w.s ∧ ∃ n' t' x', u = .value n' t' x')) := by
+      have key : PInv c Sup (valCopy c w.s (some u) (.value n t x)) ∧
+          (((valCopy c w.s (some u) (.value n t x)).get (.value n t x)).isSome = true ∨
+            (c.hopCopies = false ∧ valCopy c w.s (some u) (.value n t x) = w.s ∧ ∃ n' t' x', u = .value n' t' x')) := by
         cases u with
         | root =>
-          rw [copyFrom_store_eq _ _ _ rfl]
+          rw [valCopy_store_eq _ _ _ _ rfl rfl]
           rcases gf.toRoot _ he with h | h
           · cases h
           · exact ⟨hS, Or.inl (hS.sinv.sup _ h)⟩
         | value n' t' x' =>
-          rw [copyFrom_store_eq _ _ _ rfl]
-          exact ⟨hS, Or.inr ⟨rfl, _, _, _, rfl⟩⟩
+          cases hc : c.hopCopies with
+          | false =>
+            rw [valCopy_noHop c _ _ _ hc]
+            exact ⟨hS, Or.inr ⟨rfl, rfl, _, _, _, rfl⟩⟩
+          | true =>
+            -- the R6 hop copies the value of the vertex with a subtype (same name, same type), which holds one
+            have hsome : (w.s.get (.value n' t' x')).isSome = true := by
+              rcases hP.2.2.2 with hd | ⟨hf, _⟩
+              · exact hd
+              · rw [hc] at hf; cases hf
+            obtain ⟨y, hg⟩ := Option.isSome_iff_exists.1 hsome
+            rw [valCopy_hop_some c _ _ _ _ _ hc hg]
+            have hty := hS.sinv.typed _ _ hg
+            rw [show (Vtx.value n' t' x').ty = t from (rule_value_value' hrule).2.1] at hty
+            refine ⟨hS.set _ _ hty, Or.inl ?_⟩
+            rw [get_set]; simp
         | arg t' x' => simp [kindOK] at hkind
         | out t' x' =>
           have ht := rule_value_out hrule
@@ -281,19 +300,21 @@ theorem walkStep_winv (gf : Facts c K Sup) (rec : Vtx → CallSt → Except RErr
           refine ⟨hS.set _ _ (hS.sinv.typed (.out t' x') a ha), Or.inl ?_⟩
           rw [get_set]; simp
         | func k =>
-          rw [copyFrom_store_eq _ _ _ rfl]
+          rw [valCopy_store_eq _ _ _ _ rfl rfl]
           exact ⟨hS, Or.inl (hP _ (mem_ins_of_hasEdge _ _ _ he))⟩
-      generalize hs1 : copyFrom w.s (some u) (.value n t x) = s1 at key
+      generalize hs1 : valCopy c w.s (some u) (.value n t x) = s1 at key
       obtain ⟨k1, k2⟩ := key
       refine ⟨fun e h => (no_err herr h).elim, fun _ => ⟨k1.congr rfl rfl, ?_, hlast⟩⟩
       show (if c.publishAfterUpdate = true then s1.get (.value n t x) else w.s.get (.value n t x)) = s1.get (.value n t x) ∧
         ((s1.get (.value n t x)).or w.final).isSome = true ∧
         (∀ a, (s1.get (.value n t x)).or w.final = some a → c.env.assignable a.ty t = true) ∧
         ((s1.get (.value n t x)).isSome = true ∨
-          ∃ pre a, done ++ [Vtx.value n t x] = pre ++ [a, Vtx.value n t x] ∧ a.isValue = true)
+          (c.hopCopies = false ∧
+            ∃ pre a, done ++ [Vtx.value n t x] = pre ++ [a, Vtx.value n t x] ∧ a.isValue = true ∧
+              c.g.hasEdge (Vtx.value n t x) a = true))
       rw [gf.pub]
       refine ⟨by simp, ?_⟩
-      rcases k2 with k2 | ⟨_, n', t', x', rfl⟩
+      rcases k2 with k2 | ⟨hcf, _, n', t', x', rfl⟩
       · obtain ⟨a, ha⟩ := Option.isSome_iff_exists.1 k2
         rw [ha]
         refine ⟨rfl, ?_, Or.inl rfl⟩
@@ -304,7 +325,7 @@ theorem walkStep_winv (gf : Facts c K Sup) (rec : Vtx → CallSt → Except RErr
       · obtain ⟨rfl, rfl, rfl, _⟩ := rule_value_value' hrule
         obtain ⟨_, hfs, hft, _⟩ := hP
         obtain ⟨fa, hfa⟩ := Option.isSome_iff_exists.1 hfs
-        refine ⟨?_, ?_, Or.inr ⟨done.dropLast, Vtx.value n' t' x', ?_, rfl⟩⟩
+        refine ⟨?_, ?_, Or.inr ⟨hcf, done.dropLast, Vtx.value n' t' x', ?_, rfl, he⟩⟩
         · cases s1.get (Vtx.value n' t' "") <;> simp [hfa]
         · intro a' ha'
           cases hg : s1.get (Vtx.value n' t' "") with
@@ -348,7 +369,8 @@ theorem walkStep_winv (gf : Facts c K Sup) (rec : Vtx → CallSt → Except RErr
       rw [walkStep_arg c rec herr]
       -- either `last` is an assignable value, or the previous vertex was entered by an R6 hop
       have key : (∃ a, w.s.last = some a ∧ c.env.assignable a.ty t = true) ∨
-          (w.s.last = none ∧ ∃ pre a, done = pre ++ [a, u] ∧ a.isValue = true ∧ u.isValue = true) := by
+          (w.s.last = none ∧ c.hopCopies = false ∧ ∃ pre a, done = pre ++ [a, u] ∧ a.isValue = true ∧ u.isValue = true ∧
+            c.g.hasEdge u a = true) := by
         cases u with
         | root =>
           rcases gf.toRoot _ he with h | h
@@ -362,9 +384,9 @@ theorem walkStep_winv (gf : Facts c K Sup) (rec : Vtx → CallSt → Except RErr
           | some a => exact Or.inl ⟨a, by rw [hl, hg], hS.sinv.typed _ _ hg⟩
           | none =>
             rw [hg] at hd hl
-            rcases hd with hd | ⟨pre, a, hd, ha⟩
+            rcases hd with hd | ⟨hcf, pre, a, hd, ha, hea⟩
             · cases hd
-            · exact Or.inr ⟨hl, pre, a, hd, ha, rfl⟩
+            · exact Or.inr ⟨hl, hcf, pre, a, hd, ha, rfl, hea⟩
         | arg t' x' => simp [kindOK] at hkind
         | out t' x' =>
           have ht := rule_arg_out hrule
@@ -372,7 +394,7 @@ theorem walkStep_winv (gf : Facts c K Sup) (rec : Vtx → CallSt → Except RErr
           obtain ⟨a, ha⟩ := Option.isSome_iff_exists.1 hP.1
           exact Or.inl ⟨a, by rw [hP.2, ha], hS.sinv.typed _ _ ha⟩
         | func k => simp [kindOK] at hkind
-      rcases key with ⟨a, hla, hta⟩ | ⟨hln, pre, a, hd, ha, hub⟩
+      rcases key with ⟨a, hla, hta⟩ | ⟨hln, hcf, pre, a, hd, ha, hub, hea⟩
       · have hst : argStore c w.s t (.arg t x) = w.s.set (.arg t x) (some a) := by
           unfold argStore
           rw [hla]
@@ -385,7 +407,7 @@ theorem walkStep_winv (gf : Facts c K Sup) (rec : Vtx → CallSt → Except RErr
           unfold argStore
           rw [hln]
         rw [hst]
-        refine ⟨fun e h => (no_err herr h).elim, fun _ => ⟨hS, ⟨rfl, Or.inr ⟨pre, a, u, ?_, ha, hub⟩⟩, hlast⟩⟩
+        refine ⟨fun e h => (no_err herr h).elim, fun _ => ⟨hS, ⟨rfl, Or.inr ⟨hcf, pre, a, u, ?_, ha, hub, hea⟩⟩, hlast⟩⟩
         rw [hd]; simp
     | func k =>
       cases hfo : c.funcOf k with
@@ -511,7 +533,7 @@ theorem walkPaths_spec (gf : Facts c K Sup) (rec : Vtx → CallSt → Except REr
         · cases l <;> simp [Vtx.isArg] at hv
           rename_i t u
           obtain ⟨hfe, hd⟩ := hP
-          rcases hd with hd | ⟨pre, a, b, hd, ha, hb⟩
+          rcases hd with hd | ⟨_, pre, a, b, hd, ha, hb, _⟩
           · obtain ⟨x, hx⟩ := Option.isSome_iff_exists.1 hd
             exact ⟨x, by rw [hfe, hx], hS.sinv.typed _ _ hx⟩
           · exact (hpg pre a b _ hd ha hb rfl).elim
